@@ -2,6 +2,7 @@
    Model/TestAndSet.v: cells (one per share number on a common placement) holding version
    ids, writers that survey and then send guarded writes, any interleaving of events. *)
 From Coq Require Import List NArith Bool.
+From Verif Require Import Model.Publish Model.SlotAnswer Proofs.SlotAnswer.
 From Verif Require Import Model.TestAndSet Proofs.TestAndSet Proofs.TestAndSetTrace Proofs.TestAndSetRace.
 Import ListNotations.
 Local Open Scope N_scope.
@@ -125,3 +126,35 @@ Qed.
 Example ex_sequential_no_surprise :
   map w_surprised (ws (run 2 2 [Survey 0; Write 0 0; Write 0 1; Survey 1; Write 1 0; Write 1 1]%nat)) = [false; false].
 Proof. reflexivity. Qed.
+
+(* "A PUBLISHER THAT MEETS A DIFFERENT VERSION REPORTS AN UNCOORDINATED-WRITE ERROR", also when its
+   own write is applied: the server's answer to a test-and-set request reports every share it
+   holds for the slot (server_read_data ignores which shares the request names -- compared with
+   the real StorageServer on every run); composed with the publisher's bookkeeping (Model/Publish,
+   C47) a share of another version that the publisher is not itself writing to that server makes
+   the whole publish end in UncoordinatedWriteError, whatever else is answered, in any order. *)
+Theorem foreign_share_gives_ucwe :
+  forall k ws pre post w wrote held named mine c v,
+    In (c, v) held -> c <> w_shnum w ->
+    mem_N c (known_on_server ws (w_server w)) = false -> v <> mine ->
+    publish_outcome k ws (pre ++ (w, answer_of mine wrote held named) :: post) = UncoordinatedWrite.
+Proof. exact foreign_share_gives_ucwe_ok. Qed.
+Print Assumptions foreign_share_gives_ucwe.
+
+Theorem own_version_tolerated :
+  forall s w held named mine,
+    (forall c v, In (c, v) held -> v = mine) ->
+    Publish.surprised (handle_answer s w (answer_of mine true held named)) = Publish.surprised s.
+Proof. exact own_version_tolerated_ok. Qed.
+Print Assumptions own_version_tolerated.
+
+(* non-vacuity: writer A (version 7) writes share 0 on server 5 and share 4 elsewhere; meanwhile B
+   created share 4 (version 9) on server 5: A's write of share 0 is applied, yet A ends with UCWE *)
+Example ex_foreign_share :
+  publish_outcome 1 [ {| w_shnum := 0; w_server := 5 |}; {| w_shnum := 4; w_server := 6 |} ]
+    [ ({| w_shnum := 4; w_server := 6 |}, answer_of 7 true [(4, 7)] [4]);
+      ({| w_shnum := 0; w_server := 5 |}, answer_of 7 true [(0, 3); (4, 9)] [0]) ] = UncoordinatedWrite /\
+  publish_outcome 1 [ {| w_shnum := 0; w_server := 5 |}; {| w_shnum := 4; w_server := 6 |} ]
+    [ ({| w_shnum := 4; w_server := 6 |}, answer_of 7 true [(4, 7)] [4]);
+      ({| w_shnum := 0; w_server := 5 |}, answer_of 7 true [(0, 3)] [0]) ] = Success.
+Proof. vm_compute. split; reflexivity. Qed.
